@@ -1,5 +1,6 @@
 import json
 import os
+import re
 
 import vf
 
@@ -25,10 +26,37 @@ TRUSTED = ["correspondence harnesses harness/overlay/server/zz_verif_c25_test.go
            "the two stages are tied separately (different packages) and composed by theorem (deliver_fc)"]
 
 
+def translate(ctx):
+    """Regenerate coq/Generated/StatsFields.v (fields of zoekt.Stats, fields summed by Stats.Add, fields tested by
+    Stats.Zero) from the CURRENT sources of the tree under check. Returns (error or None, dict of the lists)."""
+    main = os.path.join(vf.ROOT, "translator", "statsfields", "main.go")
+    errf = os.path.join(ctx.tmp, "statsfields.err")
+    rc, out = vf.sh("go run %s . 2>%s" % (main, errf), cwd=vf.REPO, env=vf.go_env(), timeout=600)
+    if rc != 0 or "Definition stats_zero_tested" not in out:
+        err = open(errf).read()[-1500:] if os.path.exists(errf) else ""
+        return "translator/statsfields failed (rc=%d): %s %s" % (rc, out[-500:], err), {}
+    vf.write_if_changed(os.path.join(vf.COQ, "Generated", "StatsFields.v"), out)
+    lists = {}
+    for name in ("stats_struct_fields", "stats_add_summed", "stats_add_cross", "stats_add_sticky", "stats_add_unrecognised",
+                 "stats_zero_tested", "stats_zero_unrecognised"):
+        m = re.search(r"Definition %s\b[^=]*:=\s*(\[.*?\])\.\n" % name, out, re.S)
+        body = m.group(1) if m else ""
+        if name == "stats_struct_fields":
+            lists[name] = ["%s %s" % (a, b) for a, b in re.findall(r'\("([^"]*)", "([^"]*)"\)', body)]
+        elif name == "stats_add_cross":
+            lists[name] = ["%s += %s" % (a, b) for a, b in re.findall(r'\("([^"]*)", "([^"]*)"\)', body)]
+        else:
+            lists[name] = re.findall(r'"((?:[^"]|"")*)"', body)
+    return None, lists
+
+
 def run(ctx):
     pid = ctx.pid
-    proofs = vf.coq_props(ctx, pid)
     broken, failures = [], []
+    terr, gen_lists = translate(ctx)          # BEFORE coq_props: Props/C25.v states theorems about the generated lists
+    if terr:
+        broken.append(terr)
+    proofs = vf.coq_props(ctx, pid)
     aok, aout = vf.audit()
     if not aok:
         proofs["ok"] = False
@@ -62,6 +90,14 @@ def run(ctx):
         recs += hr["records"]
         if hr["rc"] != 0:
             broken.append("harness TestVerifC25 in ./%s failed (rc=%d): %s" % (h["pkg_dir"], hr["rc"], hr["log"][-1500:]))
+    # the counter vector handed to the model: the harness enumerates the counters by reflection in struct order; the
+    # model (C25_named_zero_add_are_the_model) labels the vector with the summed fields in struct order
+    summed = set(gen_lists.get("stats_add_summed", []))
+    order = [f.split(" ")[0] for f in gen_lists.get("stats_struct_fields", []) if f.split(" ")[0] in summed]
+    for r in recs:
+        if r.get("kind") == "info" and "counters" in r and gen_lists and list(r["counters"]) != order:
+            broken.append("counter vector of the harness (reflection over zoekt.Stats: %s) differs from the fields summed by Stats.Add in struct order "
+                          "(translator/statsfields: %s)" % (r["counters"], order))
     for r in recs:
         if r.get("kind") == "oracle_fail":
             failures.append(dict(key=r.get("key", "?"), what=r.get("what", ""), replay=r.get("replay")))
@@ -90,7 +126,7 @@ def run(ctx):
         oracle_failures=len(failures),
         input_distribution=vf.histogram(cases, "class"),
         trusted_base=TRUSTED,
-        generated=dict(maxMessageSize=maxsz),
+        generated=dict(maxMessageSize=maxsz, **gen_lists),
     )
     if proofs.get("coqchk"):
         cov["coqchk"] = proofs["coqchk"]
